@@ -375,3 +375,116 @@ LIMITS = dict(
 UNITS.append(LIMITS)
 # C12 END
 # ---------------------------------------------------------------------------------------------
+
+# ---------------------------------------------------------------------------------------------
+# C15 BEGIN (owner: C15/C05 worker) -- the pure integer parts of the FRI crate: FriOptions::new asserts,
+# num_fri_layers (fuelled while), the domain-size guard / division of FriProof::parse_layers, the running degree
+# bound of FriVerifier::new / verify_generic, the index arithmetic of map_positions_to_indexes / fold_positions /
+# get_query_values.  Proofs/FriGen.v proves that the hand model coq/Model/Fri.v computes these terms.
+_FO = "fri/src/options.rs"
+_FV = "fri/src/verifier/mod.rs"
+_FP = "fri/src/proof.rs"
+_FU = "fri/src/utils.rs"
+_FF = "fri/src/folding/mod.rs"
+_FRI_RAW = """(* FriOptions of fri/src/options.rs (guarded): three usize fields; a Vec is represented by its length *)
+Record GFriOptions : Set := mkGFriOptions { go_folding_factor : Z; go_remainder_max_degree : Z; go_blowup_factor : Z }.
+Definition is_pow2 (x : Z) : bool := (0 <? x) && (x =? 2 ^ Z.log2 x).   (* usize::is_power_of_two *)
+(* usize::next_power_of_two (mathematical value; the generated code checks that it fits) *)
+Definition next_pow2 (x : Z) : Z := if Z.leb x 1 then 1 else Z.pow 2 (Z.log2_up x).
+Definition fri_vec_len (n : Z) : Z := n.
+"""
+_FO_STRUCT = {"gtype": "GFriOptions", "canon": "FriOptions",
+              "ctor": ("mkGFriOptions", ["folding_factor", "remainder_max_degree", "blowup_factor"]),
+              "fields": {"folding_factor": ("go_folding_factor", U(64)),
+                         "remainder_max_degree": ("go_remainder_max_degree", U(64)),
+                         "blowup_factor": ("go_blowup_factor", U(64))},
+              "methods": {"folding_factor": ("go_folding_factor", U(64)),
+                          "remainder_max_degree": ("go_remainder_max_degree", U(64)),
+                          "blowup_factor": ("go_blowup_factor", U(64))}}
+FRI_INT = dict(
+    module="FriInt", prefix="fri", file=_FO, elem="__no_element_type__",
+    structs={
+        "Self": _FO_STRUCT, "FriOptions": _FO_STRUCT,
+        "Vec<D>": {"gtype": "Z", "methods": {"len": ("fri_vec_len", U(64))}},
+    },
+    guards=[
+        (_FO, "pub struct FriOptions { folding_factor: usize, remainder_max_degree: usize, blowup_factor: usize, }"),
+        (_FO, "pub fn folding_factor(&self) -> usize { self.folding_factor }"),
+        (_FO, "pub fn remainder_max_degree(&self) -> usize { self.remainder_max_degree }"),
+        (_FO, "pub fn blowup_factor(&self) -> usize { self.blowup_factor }"),
+        (_FO, "FriOptions { folding_factor, remainder_max_degree, blowup_factor, }"),
+        # the hand-modelled skeletons around the translated arithmetic
+        (_FV, "for (depth, commitment) in layer_commitments.iter().enumerate() {"),
+        (_FV, "let mut max_degree_plus_1 = max_poly_degree + 1;"),
+        (_FV, "for depth in 0..self.options.num_fri_layers(self.domain_size) {"),
+        (_FP, "for (i, layer) in self.layers.into_iter().enumerate() {"),
+        (_FU, "if num_partitions == 1 { return positions.to_vec(); }"),
+        (_FU, "for position in positions {"),
+        (_FF, "let position = position % target_domain_size;"),
+    ],
+    items=[
+        dict(raw=_FRI_RAW),
+        part("options_new_checks", "new", "FriOptions", params="blowup_factor: usize, folding_factor: usize, remainder_max_degree: usize",
+             ret="bool", stop="FriOptions {", tail="true"),
+        fn("num_fri_layers", "FriOptions", litdef=U(64)),   # `let mut result = 0;` is a usize (the return type)
+        part("parse_layers_step", "parse_layers", "FriProof", file=_FP, params="domain_size: usize, folding_factor: usize, i: usize",
+             ret="Option<usize>", start="if domain_size < folding_factor", stop="let (qv, mp)", tail="Some(domain_size)"),
+        part("verifier_new_domain", "new", "< E , C , H , R > FriVerifier*", file=_FV, params="max_poly_degree: usize, options: FriOptions", ret="usize",
+             start="let domain_size = (max_poly_degree + 1)", stop="let domain_generator", tail="domain_size"),
+        part("verifier_new_step", "new", "< E , C , H , R > FriVerifier*", file=_FV,
+             params="depth: usize, layer_commitments: Vec<D>, options: FriOptions, max_degree_plus_1: usize", ret="Option<usize>",
+             start="if depth != layer_commitments.len() - 1", stop="} Ok(FriVerifier {", tail="Some(max_degree_plus_1)"),
+        part("verify_layer_bound", "verify_generic", "< E , C , H , R > FriVerifier*", file=_FV,
+             params="max_degree_plus_1: usize, N: usize, depth: usize", ret="Option<bool>",
+             start="if max_degree_plus_1 % N != 0", stop="domain_generator = domain_generator", tail="Some(true)"),
+        part("verify_remainder_bound", "verify_generic", "< E , C , H , R > FriVerifier*", file=_FV,
+             params="remainder_poly: Vec<D>, max_degree_plus_1: usize", ret="Option<bool>",
+             start="if remainder_poly.len() > max_degree_plus_1", stop="let offset", tail="Some(true)"),
+        part("verify_layer_degree_update", "verify_generic", "< E , C , H , R > FriVerifier*", file=_FV,
+             params="max_degree_plus_1: usize, N: usize", ret="usize",
+             start="max_degree_plus_1 /= N", stop="domain_size /= N", tail="max_degree_plus_1"),
+        part("verify_layer_domain_update", "verify_generic", "< E , C , H , R > FriVerifier*", file=_FV,
+             params="domain_size: usize, N: usize", ret="usize",
+             start="domain_size /= N", stop="mem::swap", tail="domain_size"),
+        part("query_row_length", "get_query_values", "", file=_FV, params="domain_size: usize, N: usize", ret="usize",
+             start="let row_length", stop="let mut result", tail="row_length"),
+        part("map_positions_sizes", "map_positions_to_indexes", "", file=_FU,
+             params="source_domain_size: usize, folding_factor: usize, num_partitions: usize", ret="usize",
+             start="let target_domain_size", stop="let mut result", tail="partition_size"),
+        part("map_position_index", "map_positions_to_indexes", "", file=_FU,
+             params="position: usize, num_partitions: usize, partition_size: usize", ret="usize",
+             start="let partition_idx", stop="result.push", tail="position"),
+        part("fold_target_size", "fold_positions", "", file=_FF, params="source_domain_size: usize, folding_factor: usize", ret="usize",
+             start="let target_domain_size", stop="let mut result", tail="target_domain_size"),
+    ],
+)
+UNITS.append(FRI_INT)
+# C15 END
+# ---------------------------------------------------------------------------------------------
+
+# ---------------------------------------------------------------------------------------------
+# C09 BEGIN (owner: C09 worker) -- the pure integer part of the FFT module: fft::permute_index
+# (`index.reverse_bits().wrapping_shr(USIZE_BITS - size.trailing_zeros())`, math/src/fft/mod.rs).
+# `reverse_bits` / `count_zeros` are defined by bits in the raw block (MachInt has no such primitives).
+# Proofs/FFTGen.v proves that the hand model's `permute_index_u64` / `permute_index` / `rev_bits` equal the
+# generated term for every size 2^k <= 2^63.
+_FFTIDX_RAW = """(* uN::reverse_bits, bit by bit: n steps, the low bit of x becomes the next low bit of the accumulator *)
+Definition reverse_bits (n x : Z) : Z :=
+  (fix go (f : nat) (x acc : Z) : Z :=
+     match f with O => acc | S f' => go f' (x / 2) (2 * acc + x mod 2) end) (Z.to_nat n) x 0.
+(* uN::count_ones / count_zeros, bit by bit *)
+Definition count_ones (n x : Z) : Z :=
+  (fix go (f : nat) (x acc : Z) : Z :=
+     match f with O => acc | S f' => go f' (x / 2) (acc + x mod 2) end) (Z.to_nat n) x 0.
+Definition count_zeros (n x : Z) : Z := n - count_ones n x.
+"""
+FFTIDX = dict(
+    module="FftIndex", prefix="fftidx", file="math/src/fft/mod.rs", elem="__no_element_type__",
+    items=[
+        dict(raw=_FFTIDX_RAW),
+        fn("permute_index", role="free"),
+    ],
+)
+UNITS.append(FFTIDX)
+# C09 END
+# ---------------------------------------------------------------------------------------------
